@@ -157,7 +157,7 @@ func loadCtx(repo, contracts string) (*Ctx, error) {
 		}
 	}
 	for _, ti := range cf.TypeInvs {
-		if ti.Stable {
+		if ti.Stable && !ti.WritersOnly {
 			for _, f := range ti.Fields {
 				c.stableArr["H."+ti.Type+"."+f] = true
 			}
